@@ -264,6 +264,35 @@ func runC11(c *Ctx) {
 				st = core.Violated
 			}
 			r.Add(core.Obligation{Rule: "ack", Key: "ack acknowledges lease.Addr.IP", Func: core.FuncName(hr), Pos: c.P.Pos(core.PosOf(ackCall.(ssa.Instruction))), Status: st, Basis: "yiaddr = lease.Addr.IP", Detail: "the ACK carries " + yi})
+			// every acknowledgement renews the lease: on every path to the ACK the expiry is set to now + the subnet's
+			// duration and the state to Allocated (a renewal acknowledged without that runs out while the client holds
+			// the address, which is then free for the next client)
+			if len(hr.Blocks) > 0 && len(hr.Blocks[0].Instrs) > 0 {
+				first := hr.Blocks[0].Instrs[0]
+				renew := func(i ssa.Instruction) bool {
+					s, ok := i.(*ssa.Store)
+					if !ok {
+						return false
+					}
+					fa, ok := s.Addr.(*ssa.FieldAddr)
+					if !ok || fieldOwner(fa) != "dhcp4_spoofer.Lease.DHCPExpiry" {
+						return false
+					}
+					v := norm(s.Val)
+					return strings.Contains(v, "time.Now()") && strings.Contains(v, ".subnet.SubnetConfig.Duration")
+				}
+				alloc := func(i ssa.Instruction) bool {
+					s, ok := i.(*ssa.Store)
+					return ok && shortLease(norm(s.Addr)) == "LEASE.State" && norm(s.Val) == "2"
+				}
+				st := core.Proved
+				if reachesWithout(first, ackCall.(ssa.Instruction), renew) || reachesWithout(first, ackCall.(ssa.Instruction), alloc) {
+					st = core.Violated
+				}
+				r.Add(core.Obligation{Rule: "ack", Key: "ack every acknowledgement renews the lease", Func: core.FuncName(hr), Pos: c.P.Pos(core.PosOf(ackCall.(ssa.Instruction))), Status: st,
+					Basis: "every path to the ACK passes lease.DHCPExpiry = time.Now().Add(lease.subnet.Duration) and lease.State = StateAllocated",
+					Detail: "some path reaches the ACK without setting the lease's expiry to now + the subnet's duration (or its state to Allocated): the client is told it holds the address for another lease time while the server's lease keeps its old expiry, is freed by the minute ticker and offered to the next client"})
+			}
 			// Addr.IP = IPOffer only under State == Discover
 			core.EachInstr(hr, func(i ssa.Instruction) {
 				s, ok := i.(*ssa.Store)
@@ -779,7 +808,7 @@ func runC12(c *Ctx) {
 			name string
 			ok   bool
 		}{
-			{"prefix address", whole || compared["(net/netip.Prefix).Addr(_.LAN)"]},
+			{"prefix address", whole || compared["(net/netip.Prefix).Addr(_.LAN)"] || compared["(net/netip.Prefix).Addr((net/netip.Prefix).Masked(_.LAN))"]},
 			{"prefix length", whole || compared["(net/netip.Prefix).Bits(_.LAN)"]},
 			{"router", compared["_.DefaultGW"]},
 			{"DNS server", compared["_.DNSServer"]},
@@ -801,6 +830,27 @@ func runC12(c *Ctx) {
 		for k, w := range want {
 			add("options", "options newSubnet option "+k, fn, nil, got[k] == w, w, "option "+k+" is "+got[k]+", expected "+w)
 		}
+		// an address option carries four bytes: AsSlice of an address that may be IPv6 (an IPv4-mapped DNS server from a
+		// net.IP) gives sixteen, which a client reads as four servers
+		core.EachInstr(fn, func(i ssa.Instruction) {
+			mu, ok := i.(*ssa.MapUpdate)
+			if !ok {
+				return
+			}
+			call, ok := mu.Value.(*ssa.Call)
+			if !ok || call.Call.StaticCallee() == nil || call.Call.StaticCallee().String() != "(net/netip.Addr).AsSlice" {
+				return
+			}
+			addr := norm(call.Call.Args[0])
+			is4 := hasGuard(guardsOf(i), "^"+regexp.QuoteMeta("(net/netip.Addr).Is4("+addr+")")+"$")
+			if k := strings.LastIndex(addr, "."); k >= 0 && !is4 {
+				// inside the (IPv4) prefix of the subnet: an IPv4 prefix contains no IPv6 and no IPv4-mapped address
+				is4 = hasGuard(guardsOf(i), `^\(net/netip\.Prefix\)\.Contains\([^,]*\.LAN,[^,]*`+regexp.QuoteMeta(addr[k:])+`\)$`) &&
+					hasGuard(guardsOf(i), `^\(net/netip\.Addr\)\.Is4\(\(net/netip\.Prefix\)\.Addr\(local\(subnet\)\.SubnetConfig\.LAN\)\)$`)
+			}
+			add("options", "options newSubnet option "+norm(mu.Key)+" is an IPv4 address", fn, i, is4, "under Is4("+addr+")",
+				"option "+norm(mu.Key)+" is AsSlice of "+addr+", which is not tested with Is4: an IPv4-mapped address (::ffff:8.8.8.8, what netip.AddrFromSlice(net.ParseIP(..)) gives) puts sixteen bytes into a four-byte-per-address option")
+		})
 	}
 	// reply shape
 	type rep struct {
